@@ -35,6 +35,18 @@ def run_unit(uid, tier, only=None, undecided_out=None):
     as (uid, reason) and the other back ends of the unit still run"""
     ud = unit_dir(uid)
     mf = unit_manifest(uid)
+    # VF_UNIT_CACHE (development tools only: tools/try_seed.sh, tools/run_benign.sh; never set by a registered command): a unit's result is reused
+    # when the same unit ran at the same tier on a byte-identical tree with byte-identical machinery (content hash of every file of the tree
+    # outside target/ and .git/, of the unit directory, of vf/*.py and of known inputs of the harnesses under units/)
+    ck = None
+    if os.environ.get("VF_UNIT_CACHE") and only is None:
+        ck = os.path.join(os.environ["VF_UNIT_CACHE"], "%s-%s-%s.json" % (uid, tier, _tree_key(ud)))
+        if os.path.exists(ck):
+            d = json.load(open(ck))
+            if undecided_out is not None: undecided_out.extend(tuple(x) for x in d["undecided"])
+            elif d["undecided"]: raise Undecided(uid, d["undecided"][0][1])
+            return d["results"]
+    und_local = []
     jobs = []
     for v in mf.get("verus", []):
         if only in (None, "verus"): jobs.append(("verus", v))
@@ -69,7 +81,32 @@ def run_unit(uid, tier, only=None, undecided_out=None):
       except Undecided as e:
         if undecided_out is None: raise
         undecided_out.append((uid, "%s back end: %s" % (kind, e.reason)))
+        und_local.append((uid, "%s back end: %s" % (kind, e.reason)))
+    if ck:
+        os.makedirs(os.path.dirname(ck), exist_ok=True)
+        json.dump({"results": results, "undecided": und_local}, open(ck + ".tmp", "w")); os.replace(ck + ".tmp", ck)
     return results
+
+
+_TREE_KEYS = {}
+
+
+def _tree_key(ud):
+    import hashlib
+    repo = os.environ.get("VERIF_REPO", "/repo")
+    def h_dir(root, skip=()):
+        h = hashlib.sha256()
+        for dp, dn, fn in os.walk(root):
+            dn[:] = sorted(x for x in dn if x not in skip)
+            for f in sorted(fn):
+                p = os.path.join(dp, f)
+                h.update(os.path.relpath(p, root).encode()); h.update(b"\0")
+                try: h.update(open(p, "rb").read())
+                except OSError: pass
+        return h.hexdigest()
+    if repo not in _TREE_KEYS: _TREE_KEYS[repo] = h_dir(repo, skip=("target", ".git"))
+    vf = h_dir(os.path.join(VERIF, "vf"), skip=("__pycache__",))
+    return hashlib.sha256((_TREE_KEYS[repo] + h_dir(ud) + vf + h_dir(os.path.join(VERIF, "units", "U43_corpus"))).encode()).hexdigest()[:24]
 
 
 def load_known():
@@ -282,7 +319,7 @@ def main():
         for r in rs:
             r2 = dict(r); r2.pop("items", None); r2.pop("functions", None)
             for f in r["failed"]:
-                print("FAILED %s :: input=%s" % (f.get("obligation"), str(f.get("input"))[:300]))
+                print("FAILED %s :: input=%s" % (f.get("obligation"), str(f.get("input"))[:(10**6 if os.environ.get("VF_FULL_INPUT") else 300)]))
             print(json.dumps(r2, indent=1)[:6000])
             bad += len(r["failed"])
         sys.exit(1 if bad else 0)
